@@ -131,6 +131,37 @@ def expand_fmt(fmt):
     return re.sub(r'(\d+)([a-zA-Z?])', lambda m_: m_.group(2) * int(m_.group(1)) if m_.group(2) not in 'sp' else m_.group(0), fmt)
 
 
+def driver_lookup_rules(ctx, rule='R5'):
+    """get_link_driver: the registered drivers are asked in order, only WrongUriType moves on to the next one, the first that accepts
+    the URI is returned and None when none does.  Shared with C02: open_link turns that None into connection_failed - an object that
+    is not connected, returned for an unknown URI, makes it wait for a link that never answers."""
+    m = ctx.model
+    gl = m.func(CR, 'get_link_driver')
+    lp = [l for l in walk_own(gl.node) if isinstance(l, ast.For)]
+    ctx.need(len(lp) == 1, 'get_link_driver: loop not found')
+    ctx.inst(rule, gl, 'tries-classes-in-order', norm(lp[0].iter) == 'CLASSES', 'drivers are tried in CLASSES order')
+    tr = [t for t in lp[0].body if isinstance(t, ast.Try)]
+    ctx.need(len(tr) == 1, 'get_link_driver: try not found')
+    body = [norm(s) for s in effective(tr[0].body) + effective(tr[0].orelse)]         # `else: return instance` is the same control flow
+    hs = tr[0].handlers
+    rest = effective(lp[0].body[lp[0].body.index(tr[0]) + 1:])
+    # the same decision carried by a local: try: v = cls(); v.connect(..); r = v / except WrongUriType: r = None / if r is not None: return r
+    if len(body) == 3 and len(hs) == 1 and len(effective(hs[0].body)) == 1 and len(rest) == 1 and isinstance(rest[0], ast.If) and not rest[0].orelse:
+        last_, hb_, tail_ = effective(tr[0].body)[-1], effective(hs[0].body)[0], rest[0]
+        if isinstance(last_, ast.Assign) and isinstance(hb_, ast.Assign) and norm(last_.targets[0]) == norm(hb_.targets[0]) and norm(hb_.value) == 'None' and \
+                norm(tail_.test) == '%s is not None' % norm(last_.targets[0]) and [norm(x) for x in effective(tail_.body)] == ['return %s' % norm(last_.targets[0])]:
+            v_ = norm(last_.value)
+            body = [b_.replace(v_, 'instance') if v_.isidentifier() else b_ for b_ in body[:2]] + ['return instance']
+            rest = []
+            hs = [ast.ExceptHandler(type=hs[0].type, name=None, body=[ast.Continue()])]
+    ctx.inst(rule, gl, 'first-accepting-driver-wins', body == ['instance = %s()' % norm(lp[0].target), 'instance.connect(%s, %s, %s)' % tuple(gl.params[:3]), 'return instance'],
+             'instantiate, connect with the URI and callbacks, return the instance; body %s' % body)
+    ok = len(hs) == 1 and handler_names(hs[0]) == ['WrongUriType'] and [norm(s) for s in effective(hs[0].body)] in (['continue'], []) and not rest and not tr[0].finalbody
+    ctx.inst(rule, gl, 'continue-only-on-wrong-scheme', ok, 'only WrongUriType moves on to the next driver; handlers %s' % [handler_names(h) for h in hs])
+    after = [norm(s) for s in effective(gl.node.body[gl.node.body.index(lp[0]) + 1:])]
+    ctx.inst(rule, gl, 'none-when-unclaimed', after == ['return None'], 'no driver found -> None')
+
+
 def check(ctx):
     m = ctx.model
     # ---- R1 ---------------------------------------------------------------------------
@@ -464,34 +495,13 @@ def check(ctx):
               (isinstance(x, ast.Assign) and any(norm(t).startswith('CLASSES') for t in x.targets))]
     ctx.inst('R1', idr, 'registry-only-grows', not shrink, 'init_drivers removes or replaces entries of CLASSES: %s' % shrink)
     # ---- R5 ------------------------------------------------------------------------------------------
-    gl = m.func(CR, 'get_link_driver')
-    lp = [l for l in walk_own(gl.node) if isinstance(l, ast.For)]
-    ctx.need(len(lp) == 1, 'get_link_driver: loop not found')
-    ctx.inst('R5', gl, 'tries-classes-in-order', norm(lp[0].iter) == 'CLASSES', 'drivers are tried in CLASSES order')
-    tr = [t for t in lp[0].body if isinstance(t, ast.Try)]
-    ctx.need(len(tr) == 1, 'get_link_driver: try not found')
-    body = [norm(s) for s in effective(tr[0].body) + effective(tr[0].orelse)]         # `else: return instance` is the same control flow
-    hs = tr[0].handlers
-    rest = effective(lp[0].body[lp[0].body.index(tr[0]) + 1:])
-    # the same decision carried by a local: try: v = cls(); v.connect(..); r = v / except WrongUriType: r = None / if r is not None: return r
-    if len(body) == 3 and len(hs) == 1 and len(effective(hs[0].body)) == 1 and len(rest) == 1 and isinstance(rest[0], ast.If) and not rest[0].orelse:
-        last_, hb_, tail_ = effective(tr[0].body)[-1], effective(hs[0].body)[0], rest[0]
-        if isinstance(last_, ast.Assign) and isinstance(hb_, ast.Assign) and norm(last_.targets[0]) == norm(hb_.targets[0]) and norm(hb_.value) == 'None' and \
-                norm(tail_.test) == '%s is not None' % norm(last_.targets[0]) and [norm(x) for x in effective(tail_.body)] == ['return %s' % norm(last_.targets[0])]:
-            v_ = norm(last_.value)
-            body = [b_.replace(v_, 'instance') if v_.isidentifier() else b_ for b_ in body[:2]] + ['return instance']
-            rest = []
-            hs = [ast.ExceptHandler(type=hs[0].type, name=None, body=[ast.Continue()])]
-    ctx.inst('R5', gl, 'first-accepting-driver-wins', body == ['instance = %s()' % norm(lp[0].target), 'instance.connect(%s, %s, %s)' % tuple(gl.params[:3]), 'return instance'],
-             'instantiate, connect with the URI and callbacks, return the instance; body %s' % body)
-    ok = len(hs) == 1 and handler_names(hs[0]) == ['WrongUriType'] and [norm(s) for s in effective(hs[0].body)] in (['continue'], []) and not rest and not tr[0].finalbody
-    ctx.inst('R5', gl, 'continue-only-on-wrong-scheme', ok, 'only WrongUriType moves on to the next driver; handlers %s' % [handler_names(h) for h in hs])
-    after = [norm(s) for s in effective(gl.node.body[gl.node.body.index(lp[0]) + 1:])]
-    ctx.inst('R5', gl, 'none-when-unclaimed', after == ['return None'], 'no driver found -> None')
+    driver_lookup_rules(ctx, 'R5')
     ol = m.func(CF, 'Crazyflie.open_link')
     g = cfg_of(ol)
     cf = g.find(lambda n: method_call(n, 'call') and norm(n.func.value) == 'self.connection_failed')
     none_branch = [n for n, c in cf if fact_key('self.link', False) in g.fact_keys_at(n)]
+    from .c07 import caller_rules
+    caller_rules(ctx, 'R5')      # every connection_failed listener is told, also when an earlier one un-registers itself (shared with C07.R2)
     ctx.inst('R5', ol, 'none-is-connection-failed', len(none_branch) == 1, 'no driver -> connection_failed')
     tr = [t for t in walk_own(ol.node) if isinstance(t, ast.Try)]
     lookup = [c for c in walk_own(ol.node) if isinstance(c, ast.Call) and norm(c.func).endswith('get_link_driver')]
